@@ -45,7 +45,13 @@ EEnd ==
   /\ Consume /\ Ev.e = "end"
   /\ bad' = IF Len(Ev.missing) > 0 THEN "no reply" ELSE IF shut /\ ~ Ev.exited THEN "the loop did not return after shutdown" ELSE ""
   /\ UNCHANGED <<called, replied, shut, exited, held>>
-Next == EReset \/ ECall \/ EChecked \/ ESend \/ EShutdown \/ EExit \/ EReply \/ EEnd
+\* (C11 on the production queues) after a burst of short-lived promises through tiny queues the
+\* time-out sweep has timed every one of them out
+EConverged ==
+  /\ Consume /\ Ev.e = "converged"
+  /\ bad' = IF Ev.stillPending > 0 THEN "promises pending past their timeout: background processing stalled" ELSE ""
+  /\ UNCHANGED <<called, replied, shut, exited, held>>
+Next == EReset \/ ECall \/ EChecked \/ ESend \/ EShutdown \/ EExit \/ EReply \/ EEnd \/ EConverged
 Spec == Init /\ [][Next]_vars
 
 \* Known finding F12 (check-then-send in EnqueueSQE): a client that passed the done-check
@@ -58,6 +64,7 @@ C12_ExactlyOneReply ==
 C12_RefusalCodes == bad \notin {"unknown code", "refused as shutting down before shutdown was requested"}
 C12_AcceptedCompletedBeforeStop == bad # "a result after the server stopped"
 C12_LoopReturns == bad # "the loop did not return after shutdown"
+C11_ProductionQueuesConverge == bad # "promises pending past their timeout: background processing stalled"
 
 TraceAccepted ==
   LET d == TLCGet("stats").diameter IN
